@@ -8,3 +8,4 @@ open IQE.Props.C06
 #print axioms C06_ieee_eq_total_on_plain
 #print axioms C06_witness_nan
 #print axioms C06_witness_negzero
+#print axioms C06_current_is_intended
